@@ -174,7 +174,7 @@ pub fn property(tier: Tier) -> Property {
         cfg.no_subst_rules = true;
         cfg.allow_extraction_subst = false;
         cfg.hist.gen.ops = Some(vec!["v", "f2", "g3", "g4", "h4", "c0", "p", "w", "lam"]);
-        cfg.hist.weights = [1, 1, 4, 3, 1, 2, 3, 1, 4, 1, 2, 5];
+        cfg.hist.weights = [1, 1, 4, 3, 1, 2, 3, 1, 4, 1, 2, 5, 3];
         stages.push(Box::new(Stage {
             name: "long-core-wide",
             source: random(move || mixed_strategy(cfg.clone()), tier.pick(2000, 40_000)),
